@@ -56,11 +56,18 @@ async fn scenario(n: u64, r: u64) -> Option<Found> {
     gs.queue_deltas(vec![ReplicationDelta::new("k".to_string(), v, ReplicaId::new(r))]);
     let state = Arc::new(parking_lot::RwLock::new(gs));
     let lp = tokio::spawn(GossipManager::start_gossip_loop(config, state, || vec![]));
-    tokio::time::sleep(std::time::Duration::from_millis(400)).await;
+    // wait until every peer has received something (normally a few tens of ms); give a loaded machine up to 6 s before concluding
+    let expected: Vec<u64> = addr_of.keys().cloned().collect();
+    for _ in 0..120 {
+        tokio::time::sleep(std::time::Duration::from_millis(50)).await;
+        let seen = log.lock().unwrap().clone();
+        if expected.iter().all(|id| seen.iter().any(|(at, _)| at == id)) { break; }
+    }
+    tokio::time::sleep(std::time::Duration::from_millis(60)).await;
     lp.abort();
     for t in tasks { t.abort(); }
     let got = log.lock().unwrap().clone();
-    let input = format!("cluster of {} replicas numbered 1..{}, node {} (peers in id order: {:?}) in selective mode; one update of a key every replica owns is queued; GossipManager::start_gossip_loop runs for 400 ms", n, n, r, addr_of.keys().collect::<Vec<_>>());
+    let input = format!("cluster of {} replicas numbered 1..{}, node {} (peers in id order: {:?}) in selective mode; one update of a key every replica owns is queued; GossipManager::start_gossip_loop runs until every peer has been reached (at most 6 s)", n, n, r, addr_of.keys().collect::<Vec<_>>());
     if let Some((at, target)) = got.iter().find(|(at, target)| at != target) {
         return Some(Found { input, observed: format!("the message targeted at replica {} arrived at replica {}'s address", target, at), required: "a targeted message goes to its target and to nobody else".into() });
     }
